@@ -376,6 +376,7 @@ static void run_bulk(void)
             int pl[12], np = 0, dir, twin;
             pl[np++] = 0; pl[np++] = bs; pl[np++] = pb - bs; pl[np++] = pb; pl[np++] = pb + bs; pl[np++] = 2 * pb + bs; pl[np++] = 3 * pb + 2 * bs;
             pl[np++] = pb + pb / 2; pl[np++] = 2 * pb + pb - bs;        /* a tail of half a batch, and of a batch less one block */
+            if (5 * pb + bs <= 1000) pl[np++] = 5 * pb + bs;              /* more than four batches and a tail (an unrolled loop has run at least once) */
             for (li = 0; li < np; ++li) for (dir = 0; dir < 2; ++dir) for (mode = 0; mode < 2; ++mode) { if ((job_ctr++) % g_opts.nshards != g_opts.shard) continue; for (ai = 0; ai < 32; ++ai) for (ao = 0; ao < 32; ++ao) {
                 ParObj o; size_t n = (size_t)pl[li]; uint8_t *in, *out, *tw; static uint8_t ref[1024], got[1024];
                 uint8_t *ptrs[3]; size_t ls[3]; int regs[3] = {0, 1, 2};
